@@ -751,3 +751,7 @@ _OLD_DS = "            if param_state is not None:\n                param_state 
 for _p, _r in (("C10", "R-C10-order"), ("C05", "R-C05-order")):
     P(_p, BASE, _OLD_DS, "            param_state = (param_state or []) + added_param_state")
     B(_p, BASE, _OLD_DS, "            param_state = added_param_state + (param_state or [])", _r)
+# the presence columns filled with fillna
+_OLD_FN = "            self.base.nodes.loc[self.nodes[name].isna(), name] = False"
+P("C12", BASE, _OLD_FN, "            self.base.nodes[name] = self.base.nodes[name].fillna(False)")
+B("C12", BASE, _OLD_FN, "            self.base.nodes[name] = self.base.nodes[name].fillna(True)", "R-C12-channels")
